@@ -147,12 +147,42 @@ def meta_from_data(d):
                     loss_details={k: mval_from_data(v) for k, v in d["loss_details"].items()})
 
 
+def iso(d):
+    """ISO calendar date of a date / datetime / pandas.Timestamp."""
+    return D(d.year, d.month, d.day).isoformat()
+
+
+def date_as(d, flavour):
+    """The calendar date d in the representation `flavour` (how user code may hand dates to Cell):
+    'date' = datetime.date, 'dt' = datetime.datetime with a time of day, 'ts' = pandas.Timestamp."""
+    if flavour == "ts":
+        import pandas as pd
+
+        return pd.Timestamp(d.year, d.month, d.day)
+    if flavour == "dt":
+        return datetime.datetime(d.year, d.month, d.day, 17, 30)
+    return D(d.year, d.month, d.day)
+
+
+def dates_not_plain(cells):
+    """Cells whose stored dates are not exactly datetime.date (the constructor must normalise)."""
+    bad = []
+    for c in cells:
+        ds = [c.period_start, c.period_end, c.evaluation_date]
+        if type(c).__name__ == "IncrementalCell":
+            ds.append(c.prev_evaluation_date)
+        if any(type(x) is not D for x in ds):
+            bad.append(c)
+    return bad
+
+
 def cells_to_data(cells):
     out = []
     for c in cells:
-        out.append({"cls": type(c).__name__, "ps": c.period_start.isoformat(), "pe": c.period_end.isoformat(),
-                    "ev": c.evaluation_date.isoformat(),
-                    "prev": c.prev_evaluation_date.isoformat() if hasattr(c, "prev_evaluation_date") else None,
+        out.append({"cls": type(c).__name__, "ps": iso(c.period_start), "pe": iso(c.period_end),
+                    "ev": iso(c.evaluation_date),
+                    "prev": iso(c.prev_evaluation_date) if hasattr(c, "prev_evaluation_date") else None,
+                    "dates_given_as": getattr(c, "_verif_dates", "date"),
                     "meta": meta_to_data(c.metadata), "values": {k: val_to_data(v) for k, v in c.values.items()}})
     return out
 
@@ -162,14 +192,28 @@ def cells_from_data(data):
 
     out = []
     for d in data:
-        kw = dict(period_start=D.fromisoformat(d["ps"]), period_end=D.fromisoformat(d["pe"]),
-                  evaluation_date=D.fromisoformat(d["ev"]), metadata=meta_from_data(d["meta"]),
+        fl = d.get("dates_given_as", "date")
+        kw = dict(period_start=date_as(D.fromisoformat(d["ps"]), fl), period_end=date_as(D.fromisoformat(d["pe"]), fl),
+                  evaluation_date=date_as(D.fromisoformat(d["ev"]), fl), metadata=meta_from_data(d["meta"]),
                   values={k: val_from_data(v) for k, v in d["values"].items()})
         if d["cls"] == "IncrementalCell":
-            out.append(IncrementalCell(prev_evaluation_date=D.fromisoformat(d["prev"]), **kw))
+            c = IncrementalCell(prev_evaluation_date=D.fromisoformat(d["prev"]), **kw)
         else:
-            out.append({"Cell": Cell, "CumulativeCell": CumulativeCell}[d["cls"]](**kw))
+            c = {"Cell": Cell, "CumulativeCell": CumulativeCell}[d["cls"]](**kw)
+        c._verif_dates = fl
+        out.append(c)
     return out
+
+
+def mk_cell(cls, flavour, ps, pe, ev, values, metadata, prev=None):
+    """Build a cell handing the dates over as `flavour`; the flavour is remembered for the replay."""
+    kw = dict(period_start=date_as(ps, flavour), period_end=date_as(pe, flavour), evaluation_date=date_as(ev, flavour),
+              values=values, metadata=metadata)
+    if prev is not None:
+        kw["prev_evaluation_date"] = prev      # (IncrementalCell stores prev as given; kept a plain date)
+    c = cls(**kw)
+    c._verif_dates = flavour
+    return c
 
 
 def run_impl(thunk):
@@ -312,7 +356,7 @@ def meta_matches(m, exp):
 
 # ------------------------------------------------------------------------------------------ summarize oracle
 def coord(c, inc):
-    return (c.period_start, c.period_end, c.evaluation_date, c.prev_evaluation_date if inc else None)
+    return (iso(c.period_start), iso(c.period_end), iso(c.evaluation_date), iso(c.prev_evaluation_date) if inc else None)
 
 
 def summarize_oracle(cells, prem, status, res, notes=None, known=None):
@@ -365,6 +409,8 @@ def summarize_oracle(cells, prem, status, res, notes=None, known=None):
     if any(k != k.lower() for k in keys):
         return fails        # mixed-case field names are outside the documented vocabulary (model-vs-code only)
     out = res
+    if dates_not_plain(out):
+        fails.append("an output cell stores a date that is not a plain datetime.date")
     ocoords = [coord(o, inc) for o in out]
     if len(set(ocoords)) != len(ocoords):
         fails.append("two output cells share a coordinate")
@@ -521,6 +567,7 @@ class SummGen(Gen):
         n_samples = r.choice([2, 3])
         cells = []
         prem_store = {}
+        flavours = set()
         for si, m in enumerate(ms):
             if r.random() < 0.2:
                 rows_s, _ = self.coords(layout, None, r.randint(1, 3), r.randint(1, 3))
@@ -539,6 +586,10 @@ class SummGen(Gen):
                 if r.random() < 0.3:
                     n_samples = r.choice([2, 3])
             own_cadence = kind != "layers" and si > 0 and r.random() < 0.4
+            # (cumulative cells only: IncrementalCell compares evaluation_date with prev_evaluation_date as given
+            #  and stores prev_evaluation_date unnormalised, so mixed representations do not construct)
+            flavour = r.choice(["ts", "ts", "dt"]) if (basis == "cum" and r.random() < 0.15) else "date"
+            flavours.add(flavour)
             for ps, pe, evs in rows_s:
                 prev = ps - datetime.timedelta(days=1)
                 if own_cadence:                  # this slice is evaluated on its own (coarser) grid: incremental
@@ -552,11 +603,10 @@ class SummGen(Gen):
                     if r.random() < 0.04:
                         vals[r.choice(sf)] = None
                     if basis == "inc":
-                        cells.append(IncrementalCell(period_start=ps, period_end=pe, prev_evaluation_date=prev,
-                                                     evaluation_date=e, values=vals, metadata=m))
+                        cells.append(mk_cell(IncrementalCell, flavour, ps, pe, e, vals, m, prev=prev))
                         prev = e
                     else:
-                        cells.append(CumulativeCell(period_start=ps, period_end=pe, evaluation_date=e, values=vals, metadata=m))
+                        cells.append(mk_cell(CumulativeCell, flavour, ps, pe, e, vals, m))
         if kind == "unregistered" and cells:
             bad = r.choice(["loss_ratio", "foo", "paid_los", "Ünï", "premium"])
             for c in r.sample(cells, r.randint(1, len(cells))):
@@ -570,7 +620,7 @@ class SummGen(Gen):
                     c.values[up.lower()] = 4
         incm = basis == "inc" and len({(c.period_start, c.period_end, c.evaluation_date, c.prev_evaluation_date) for c in cells}) \
             > len({(c.period_start, c.period_end, c.evaluation_date) for c in cells})
-        info = {"kind": kind, "basis": basis, "mixed_prev": incm, "n_slices": len(ms), "slice_diff": slice_diff, "values": vk if kind != "mixedkind" else "mixed",
+        info = {"kind": kind, "basis": basis, "mixed_prev": incm, "date_flavours": sorted(flavours), "n_slices": len(ms), "slice_diff": slice_diff, "values": vk if kind != "mixedkind" else "mixed",
                 "layout": layout, "n_cells": len(cells), "fields": fields, "prem": prem}
         return cells, prem, info
 
